@@ -26,7 +26,7 @@ theorem C04_completions_conserved (fuel : Nat) (c : CS) (o : Oracle) (out : List
 `write(2)`, then what waits in its `to` buffer); `i.lineIn cs` says that item `i` is a line whose code is in `cs`.
 Helper lemmas: `Pm/ClientProof.lean`, `Pm/ClientStream.lean`. -/
 section client
-open Pm Pm.Daemon Pm.Client
+open Pm Pm.Daemon Pm.Client Pm.Daemon.ClientPf
 
 /-- For every byte string `line`, every client state and every world, one call of `_parse_input` has exactly one of three
     outcomes:
